@@ -118,7 +118,10 @@ func (s *storeMemoizer) GraphNames(ctx context.Context, names chan<- string) err
 type graphMemoizer struct {
 	g storage.Graph
 
-	mu   sync.RWMutex
+	mu sync.RWMutex
+	// gen counts the resets of the memoization: a result is only memoized if no
+	// update started or finished since the lookup that produced it began.
+	gen  uint64
 	memN map[string][]*node.Node
 	memP map[string][]*predicate.Predicate
 	memO map[string][]*triple.Object
@@ -134,31 +137,37 @@ func (g *graphMemoizer) ID(ctx context.Context) string {
 // AddTriples adds the triples to the storage. Adding a triple that already
 // exists should not fail.
 func (g *graphMemoizer) AddTriples(ctx context.Context, ts []*triple.Triple) error {
-	g.mu.Lock()
-	// Update operations reset the memoization.
-	g.memN = make(map[string][]*node.Node)
-	g.memP = make(map[string][]*predicate.Predicate)
-	g.memO = make(map[string][]*triple.Object)
-	g.memT = make(map[string][]*triple.Triple)
-	g.memE = make(map[string]bool)
-	g.mu.Unlock()
-
-	return g.g.AddTriples(ctx, ts)
+	// Update operations reset the memoization: before the update, so that nothing
+	// memoized outlives it, and after it, so that a lookup that overlapped with it
+	// cannot memoize what it saw.
+	g.reset()
+	err := g.g.AddTriples(ctx, ts)
+	g.reset()
+	return err
 }
 
 // RemoveTriples removes the triples from the storage. Removing triples that
 // are not present on the store should not fail.
 func (g *graphMemoizer) RemoveTriples(ctx context.Context, ts []*triple.Triple) error {
+	// Update operations reset the memoization: before the update, so that nothing
+	// memoized outlives it, and after it, so that a lookup that overlapped with it
+	// cannot memoize what it saw.
+	g.reset()
+	err := g.g.RemoveTriples(ctx, ts)
+	g.reset()
+	return err
+}
+
+// reset forgets everything memoized so far.
+func (g *graphMemoizer) reset() {
 	g.mu.Lock()
-	// Update operations reset the memoization.
+	g.gen++
 	g.memN = make(map[string][]*node.Node)
 	g.memP = make(map[string][]*predicate.Predicate)
 	g.memO = make(map[string][]*triple.Object)
 	g.memT = make(map[string][]*triple.Triple)
 	g.memE = make(map[string]bool)
 	g.mu.Unlock()
-
-	return g.g.RemoveTriples(ctx, ts)
 }
 
 func combinedUUID(op string, lo *storage.LookupOptions, uuids ...uuid.UUID) string {
@@ -191,6 +200,7 @@ func (g *graphMemoizer) Objects(ctx context.Context, s *node.Node, p *predicate.
 	k := combinedUUID("Objects", lo, s.UUID(), p.UUID())
 	g.mu.RLock()
 	v := g.memO[k]
+	gen := g.gen
 	g.mu.RUnlock()
 	if v != nil {
 		// Return the memoized results.
@@ -232,7 +242,10 @@ func (g *graphMemoizer) Objects(ctx context.Context, s *node.Node, p *predicate.
 	}
 	wg.Wait()
 	g.mu.Lock()
-	g.memO[k] = mobjs
+	if err == nil && gen == g.gen {
+		// Complete and not overtaken by an update: memoize.
+		g.memO[k] = mobjs
+	}
 	g.mu.Unlock()
 	return err
 }
@@ -260,6 +273,7 @@ func (g *graphMemoizer) Subjects(ctx context.Context, p *predicate.Predicate, o 
 	k := combinedUUID("Subjects", lo, p.UUID(), o.UUID())
 	g.mu.RLock()
 	v := g.memN[k]
+	gen := g.gen
 	g.mu.RUnlock()
 	if v != nil {
 		// Return the memoized results.
@@ -301,7 +315,10 @@ func (g *graphMemoizer) Subjects(ctx context.Context, p *predicate.Predicate, o 
 	}
 	wg.Wait()
 	g.mu.Lock()
-	g.memN[k] = msubs
+	if err == nil && gen == g.gen {
+		// Complete and not overtaken by an update: memoize.
+		g.memN[k] = msubs
+	}
 	g.mu.Unlock()
 	return err
 }
@@ -319,6 +336,7 @@ func (g *graphMemoizer) PredicatesForSubject(ctx context.Context, s *node.Node, 
 	k := combinedUUID("PredicatesForSubject", lo, s.UUID())
 	g.mu.RLock()
 	v := g.memP[k]
+	gen := g.gen
 	g.mu.RUnlock()
 	if v != nil {
 		// Return the memoized results.
@@ -360,7 +378,10 @@ func (g *graphMemoizer) PredicatesForSubject(ctx context.Context, s *node.Node, 
 	}
 	wg.Wait()
 	g.mu.Lock()
-	g.memP[k] = mpreds
+	if err == nil && gen == g.gen {
+		// Complete and not overtaken by an update: memoize.
+		g.memP[k] = mpreds
+	}
 	g.mu.Unlock()
 	return err
 }
@@ -378,6 +399,7 @@ func (g *graphMemoizer) PredicatesForObject(ctx context.Context, o *triple.Objec
 	k := combinedUUID("PredicatesForObject", lo, o.UUID())
 	g.mu.RLock()
 	v := g.memP[k]
+	gen := g.gen
 	g.mu.RUnlock()
 	if v != nil {
 		// Return the memoized results.
@@ -419,7 +441,10 @@ func (g *graphMemoizer) PredicatesForObject(ctx context.Context, o *triple.Objec
 	}
 	wg.Wait()
 	g.mu.Lock()
-	g.memP[k] = mpreds
+	if err == nil && gen == g.gen {
+		// Complete and not overtaken by an update: memoize.
+		g.memP[k] = mpreds
+	}
 	g.mu.Unlock()
 	return err
 }
@@ -437,6 +462,7 @@ func (g *graphMemoizer) PredicatesForSubjectAndObject(ctx context.Context, s *no
 	k := combinedUUID("PredicatesForSubjectAndObject", lo, s.UUID(), o.UUID())
 	g.mu.RLock()
 	v := g.memP[k]
+	gen := g.gen
 	g.mu.RUnlock()
 	if v != nil {
 		// Return the memoized results.
@@ -478,7 +504,10 @@ func (g *graphMemoizer) PredicatesForSubjectAndObject(ctx context.Context, s *no
 	}
 	wg.Wait()
 	g.mu.Lock()
-	g.memP[k] = mpreds
+	if err == nil && gen == g.gen {
+		// Complete and not overtaken by an update: memoize.
+		g.memP[k] = mpreds
+	}
 	g.mu.Unlock()
 	return err
 }
@@ -496,6 +525,7 @@ func (g *graphMemoizer) TriplesForSubject(ctx context.Context, s *node.Node, lo 
 	k := combinedUUID("TriplesForSubject", lo, s.UUID())
 	g.mu.RLock()
 	v := g.memT[k]
+	gen := g.gen
 	g.mu.RUnlock()
 	if v != nil {
 		// Return the memoized results.
@@ -537,7 +567,10 @@ func (g *graphMemoizer) TriplesForSubject(ctx context.Context, s *node.Node, lo 
 	}
 	wg.Wait()
 	g.mu.Lock()
-	g.memT[k] = mts
+	if err == nil && gen == g.gen {
+		// Complete and not overtaken by an update: memoize.
+		g.memT[k] = mts
+	}
 	g.mu.Unlock()
 	return err
 }
@@ -555,6 +588,7 @@ func (g *graphMemoizer) TriplesForPredicate(ctx context.Context, p *predicate.Pr
 	k := combinedUUID("TriplesForPredicate", lo, p.UUID())
 	g.mu.RLock()
 	v := g.memT[k]
+	gen := g.gen
 	g.mu.RUnlock()
 	if v != nil {
 		// Return the memoized results.
@@ -596,7 +630,10 @@ func (g *graphMemoizer) TriplesForPredicate(ctx context.Context, p *predicate.Pr
 	}
 	wg.Wait()
 	g.mu.Lock()
-	g.memT[k] = mts
+	if err == nil && gen == g.gen {
+		// Complete and not overtaken by an update: memoize.
+		g.memT[k] = mts
+	}
 	g.mu.Unlock()
 	return err
 }
@@ -614,6 +651,7 @@ func (g *graphMemoizer) TriplesForObject(ctx context.Context, o *triple.Object, 
 	k := combinedUUID("TriplesForObject", lo, o.UUID())
 	g.mu.RLock()
 	v := g.memT[k]
+	gen := g.gen
 	g.mu.RUnlock()
 	if v != nil {
 		// Return the memoized results.
@@ -655,7 +693,10 @@ func (g *graphMemoizer) TriplesForObject(ctx context.Context, o *triple.Object, 
 	}
 	wg.Wait()
 	g.mu.Lock()
-	g.memT[k] = mts
+	if err == nil && gen == g.gen {
+		// Complete and not overtaken by an update: memoize.
+		g.memT[k] = mts
+	}
 	g.mu.Unlock()
 	return err
 }
@@ -673,6 +714,7 @@ func (g *graphMemoizer) TriplesForSubjectAndPredicate(ctx context.Context, s *no
 	k := combinedUUID("TriplesForSubjectAndPredicate", lo, s.UUID(), p.UUID())
 	g.mu.RLock()
 	v := g.memT[k]
+	gen := g.gen
 	g.mu.RUnlock()
 	if v != nil {
 		// Return the memoized results.
@@ -714,7 +756,10 @@ func (g *graphMemoizer) TriplesForSubjectAndPredicate(ctx context.Context, s *no
 	}
 	wg.Wait()
 	g.mu.Lock()
-	g.memT[k] = mts
+	if err == nil && gen == g.gen {
+		// Complete and not overtaken by an update: memoize.
+		g.memT[k] = mts
+	}
 	g.mu.Unlock()
 	return err
 }
@@ -732,6 +777,7 @@ func (g *graphMemoizer) TriplesForPredicateAndObject(ctx context.Context, p *pre
 	k := combinedUUID("TriplesForPredicateAndObject", lo, p.UUID(), o.UUID())
 	g.mu.RLock()
 	v := g.memT[k]
+	gen := g.gen
 	g.mu.RUnlock()
 	if v != nil {
 		// Return the memoized results.
@@ -773,7 +819,10 @@ func (g *graphMemoizer) TriplesForPredicateAndObject(ctx context.Context, p *pre
 	}
 	wg.Wait()
 	g.mu.Lock()
-	g.memT[k] = mts
+	if err == nil && gen == g.gen {
+		// Complete and not overtaken by an update: memoize.
+		g.memT[k] = mts
+	}
 	g.mu.Unlock()
 	return err
 }
@@ -783,6 +832,7 @@ func (g *graphMemoizer) Exist(ctx context.Context, t *triple.Triple) (bool, erro
 	k := combinedUUID("Exist", storage.DefaultLookup, t.UUID())
 	g.mu.RLock()
 	v, ok := g.memE[k]
+	gen := g.gen
 	g.mu.RUnlock()
 	if ok {
 		// Return the memoized results.
@@ -793,7 +843,9 @@ func (g *graphMemoizer) Exist(ctx context.Context, t *triple.Triple) (bool, erro
 	b, err := g.g.Exist(ctx, t)
 	if err == nil {
 		g.mu.Lock()
-		g.memE[k] = b
+		if gen == g.gen {
+			g.memE[k] = b
+		}
 		g.mu.Unlock()
 	}
 	return b, err
@@ -806,6 +858,7 @@ func (g *graphMemoizer) Triples(ctx context.Context, lo *storage.LookupOptions, 
 	k := combinedUUID("Triples", lo)
 	g.mu.RLock()
 	v := g.memT[k]
+	gen := g.gen
 	g.mu.RUnlock()
 	if v != nil {
 		// Return the memoized results.
@@ -847,7 +900,10 @@ func (g *graphMemoizer) Triples(ctx context.Context, lo *storage.LookupOptions, 
 	}
 	wg.Wait()
 	g.mu.Lock()
-	g.memT[k] = mts
+	if err == nil && gen == g.gen {
+		// Complete and not overtaken by an update: memoize.
+		g.memT[k] = mts
+	}
 	g.mu.Unlock()
 	return err
 }
